@@ -21,6 +21,12 @@ pub struct Case {
     pub checker: bool,
     /// the constructively simple family on which the converse is required
     pub simple: bool,
+    /// words of a user dictionary layered over the system dictionary of `words`
+    #[serde(default)]
+    pub user_words: Vec<String>,
+    /// converse family: the one terminator unit the text contains besides neutral characters (None: 。 and 、)
+    #[serde(default)]
+    pub term: Option<String>,
 }
 
 pub struct C16;
@@ -138,21 +144,36 @@ impl Property for C16 {
             }
             s
         }
-        let general = (vec(word(), 0..8), vec(tp.clone(), 0..=maxp), prop::option::weighted(0.6, 1usize..=12), any::<bool>())
-            .prop_map(|(words, t, limit, checker)| Case { text: render(&words, &t), words, limit, checker, simple: false });
+        let general = (vec(word(), 0..8), prop_oneof![2 => Just(Vec::new()), 1 => vec(word(), 1..4)], vec(tp.clone(), 0..=maxp), prop::option::weighted(0.6, 1usize..=12), any::<bool>())
+            .prop_map(|(words, user_words, t, limit, checker)| {
+                let all: Vec<String> = words.iter().chain(user_words.iter()).cloned().collect();
+                Case { text: render(&all, &t), words, user_words, limit, checker, simple: false, term: None }
+            });
         // a text longer than the default window whose window end falls among dictionary words and terminators
         let straddle = (vec(word(), 1..8), 4070usize..4100, vec(tp, 1..=30), any::<bool>()).prop_map(|(words, pad, t, checker)| {
             let mut text = "あ".repeat(pad);
             text.push_str(&render(&words, &t));
-            Case { text, words, limit: None, checker, simple: false }
+            Case { text, words, user_words: vec![], limit: None, checker, simple: false, term: None }
         });
         let simple = (vec(simple_word(), 0..6), simple_text(40), prop::option::weighted(0.3, 40usize..=60), any::<bool>())
-            .prop_map(|(words, text, limit, checker)| Case { words, text, limit, checker, simple: true });
+            .prop_map(|(words, text, limit, checker)| Case { words, text, limit, checker, simple: true, user_words: vec![], term: None });
         let long = (vec(word(), 0..4), vec(text_piece(), 1..=20), 1usize..400, any::<bool>()).prop_map(|(words, unit, reps, checker)| {
             let u = unit.concat();
-            Case { words, text: u.repeat(reps * 4), limit: None, checker, simple: false }
+            Case { words, text: u.repeat(reps * 4), limit: None, checker, simple: false, user_words: vec![], term: None }
         });
-        prop_oneof![12 => general, 6 => simple, 1 => straddle, tier.pick(0, 2) => long].boxed()
+        // converse on one terminator kind at a time: neutral characters (no brackets, particles, alphanumerics)
+        // and runs of a single terminator unit; every run must end a sentence
+        let sparse = (
+            vec(simple_word(), 0..5),
+            select(vec!["。", "？", "！", "♪", "…", "?", "!", ".", "．", "・・・", "<br><br>", "<BR><BR>", "<br><BR>", "<BR><br><BR>"]),
+            vec(prop_oneof![5 => select(vec!["あ", "い", "漢", "字", "な", "娘", "モ", "ー"]).prop_map(|x| Some(x)), 1 => Just(None)], 0..30),
+            any::<bool>(),
+        )
+            .prop_map(|(words, term, body, checker)| {
+                let text: String = body.iter().map(|p| p.unwrap_or(term)).collect();
+                Case { words, text, limit: None, checker, simple: true, user_words: vec![], term: Some(term.to_string()) }
+            });
+        prop_oneof![12 => general, 4 => simple, 4 => sparse, 1 => straddle, tier.pick(0, 2) => long].boxed()
     }
     fn cases_per_shard(&self, tier: Tier) -> u32 {
         tier.pick(6000, 100000)
@@ -164,7 +185,8 @@ impl Property for C16 {
         for w in &case.words {
             system.push(Entry::simple(w, 0, 0, 100, &pos));
         }
-        let dic = DicModel { matrix: Matrix { nl: 1, nr: 1, lines: vec![] }, system, users: vec![] };
+        let users = if case.user_words.is_empty() { vec![] } else { vec![case.user_words.iter().map(|w| Entry::simple(w, 0, 0, 100, &pos)).collect::<Vec<_>>()] };
+        let dic = DicModel { matrix: Matrix { nl: 1, nr: 1, lines: vec![] }, system, users };
         let (dict, _) = match build_world(&dic, &CfgModel::minimal(&pos), ctx) {
             Ok(x) => x,
             Err(_) => {
@@ -249,7 +271,7 @@ impl Property for C16 {
                     if !text.is_char_boundary(i) {
                         continue;
                     }
-                    for w in &case.words {
+                    for w in case.words.iter().chain(case.user_words.iter()) {
                         if text[i..].starts_with(w.as_str()) {
                             let j = i + w.len();
                             let overlaps = j > b + tstart;
@@ -264,20 +286,43 @@ impl Property for C16 {
         }
         // (5) converse on the simple family
         if case.simple && text.chars().count() <= case.limit.unwrap_or(4096) {
-            let cs: Vec<(usize, char)> = text.char_indices().collect();
             let mut want: Vec<usize> = Vec::new();
-            let mut i = 0;
-            while i < cs.len() {
-                if cs[i].1 == '。' {
-                    let mut j = i + 1;
-                    while j < cs.len() && (cs[j].1 == '。' || cs[j].1 == '、') {
-                        j += 1;
+            if let Some(t) = &case.term {
+                // maximal runs of the terminator unit
+                let mut i = 0usize;
+                while i < text.len() {
+                    if text[i..].starts_with(t.as_str()) {
+                        let mut j = i;
+                        while text[j..].starts_with(t.as_str()) {
+                            j += t.len();
+                        }
+                        // <br> runs may continue in the other spelling
+                        if t.starts_with('<') {
+                            while text[j..].starts_with("<br>") || text[j..].starts_with("<BR>") {
+                                j += 4;
+                            }
+                        }
+                        want.push(j);
+                        i = j;
+                    } else {
+                        i += text[i..].chars().next().unwrap().len_utf8();
                     }
-                    let end = if j < cs.len() { cs[j].0 } else { text.len() };
-                    want.push(end);
-                    i = j;
-                } else {
-                    i += 1;
+                }
+            } else {
+                let cs: Vec<(usize, char)> = text.char_indices().collect();
+                let mut i = 0;
+                while i < cs.len() {
+                    if cs[i].1 == '。' {
+                        let mut j = i + 1;
+                        while j < cs.len() && (cs[j].1 == '。' || cs[j].1 == '、') {
+                            j += 1;
+                        }
+                        let end = if j < cs.len() { cs[j].0 } else { text.len() };
+                        want.push(end);
+                        i = j;
+                    } else {
+                        i += 1;
+                    }
                 }
             }
             if want.last() != Some(&text.len()) && !text.is_empty() {
@@ -285,7 +330,7 @@ impl Property for C16 {
             }
             let got: Vec<usize> = sentences.iter().map(|x| x.1).collect();
             if got != want {
-                rep.fail("missing-break", format!("text {:?} words {:?} checker {}: sentence ends {:?}, every 。 group must end a sentence: {:?}", text, case.words, case.checker, got, want));
+                rep.fail("missing-break", format!("text {:?} words {:?} checker {}: sentence ends {:?}, every terminator run must end a sentence: {:?}", text, case.words, case.checker, got, want));
                 return rep;
             }
             rep.class("converse checked");
